@@ -276,8 +276,17 @@ class TransformImage(SampleImage):
         r"""Sample images at transformed target grid points after mapping these to the source grid cube."""
         grid = cast(Tensor, self.grid)
         if isinstance(transform, Tensor):
-            if transform.ndim == grid.shape[-1] + 1:
-                transform = transform.unsqueeze(0)
+            D = grid.shape[-1]
+            if transform.ndim == D + 1:
+                # Unbatched flow field of shape (D, ..., X), unless this is a batch of 2D linear
+                # transformations of shape (N, D, 1), (N, D, D), or (N, D, D + 1), respectively
+                if (
+                    transform.ndim > 3
+                    or transform.shape[1] != D
+                    or transform.shape[2] not in (1, D, D + 1)
+                    or transform.shape == (D,) + grid.shape[1:-1]
+                ):
+                    transform = transform.unsqueeze(0)
             grid = U.transform_grid(transform, grid, align_corners=self.align_corners())
         elif transform is not None:
             raise TypeError("TransformImage() 'transform' must be Tensor")
